@@ -14,7 +14,8 @@ claimed = {
    technique="contract-based deductive verification (own VC generator over go/ssa; recursive closure verified modularly against its own contract; pair-form quantifiers with arithmetic-free triggers; z3/cvc5) + bounded layout measurement and text/CSV differential check",
    design="5/C16"),
  "C14": dict(
-   text="Deductively proved pieces of the pipeline: summarizeCell stores as the cell's summary the unit's assumption applied to the cell's own sample, and as its comparison that assumption applied to (baseline cell's sample, own sample) in this order, leaves the sample and baseline links alone and adds at most one warning; NonSingularFields names exactly the flattened residue fields in which the cell's keys differ (soundness and completeness, for any number of keys and fields, missing values reading as empty) — so a warning names exactly the varying keys; internRow (shared with C08) keeps keys equal across field growth, which is what puts a measurement into the cell of its table/row/column.  The accumulation itself (Builder.Add: nested maps keyed by Key; ToTables: goroutines, map iteration, baseline lookup; summarizeCol: geomeans; flag parsing; the renderers) is outside the subset and is covered by a bounded stand-in that drives the real benchstat() on generated files under six flag settings and recomputes every cell independently.",
+   category="other",
+   text="(proof of the per-cell mechanisms + bounded exploration deciding the whole-pipeline statement)  Deductively proved pieces of the pipeline: summarizeCell stores as the cell's summary the unit's assumption applied to the cell's own sample, and as its comparison that assumption applied to (baseline cell's sample, own sample) in this order, leaves the sample and baseline links alone and adds at most one warning; NonSingularFields names exactly the flattened residue fields in which the cell's keys differ (soundness and completeness, for any number of keys and fields, missing values reading as empty) — so a warning names exactly the varying keys; internRow (shared with C08) keeps keys equal across field growth, which is what puts a measurement into the cell of its table/row/column.  The accumulation itself (Builder.Add: nested maps keyed by Key; ToTables: goroutines, map iteration, baseline lookup; summarizeCol: geomeans; flag parsing; the renderers) is outside the subset and is covered by a bounded stand-in that drives the real benchstat() on generated files under six flag settings and recomputes every cell independently.",
    note="Trusted: interface method calls (Assumption.Summary/Compare) are functions of receiver and arguments; mapKeys returns the map's keys; FlattenedFields as in C08.  The one-cell-per-combination and exact-sample claims, p-values, deltas, geomean row and the warning set are bounded evidence only.",
    technique="contract-based deductive verification (own VC generator over go/ssa; interface calls as uninterpreted functions; z3/cvc5) + bounded differential check of the whole command against an independent recomputation",
    design="5/C14"),
@@ -39,7 +40,8 @@ claimed = {
    technique="contract-based deductive verification of the method/tail selection (own VC generator over go/ssa; floats as SMT FloatingPoint; existential post with a witness hint; z3/cvc5) + bounded exhaustive enumeration against a brute-force oracle for the distribution itself",
    design="5/C11"),
  "C01": dict(
-   text="The reader half of the round trip is under deductive contracts shared with C02/C04 (key lines: parseKeyValueLine against the rune-level key rule; the configuration index; parseBenchmarkLine keeps the written value/unit pair whenever it rescales).  The writer's diffing of configurations (writeResult/writeFileConfig: map of struct values, overlapping copy, fmt.Fprintf into a buffer) is NOT under contract in this build; the round-trip statement itself is checked by a bounded stand-in: exhaustive 2-step and sampled 3-step configuration histories over {absent, file, internal} (which exposed the missing deletion on a file-to-internal transition — fixed), all special float values in plain and rescaled units, and seeded random streams with API edits.",
+   category="other",
+   text="(proof of the reader-side mechanisms + bounded exploration deciding the round-trip statement)  The reader half of the round trip is under deductive contracts shared with C02/C04 (key lines: parseKeyValueLine against the rune-level key rule; the configuration index; parseBenchmarkLine keeps the written value/unit pair whenever it rescales).  The writer's diffing of configurations (writeResult/writeFileConfig: map of struct values, overlapping copy, fmt.Fprintf into a buffer) is NOT under contract in this build; the round-trip statement itself is checked by a bounded stand-in: exhaustive 2-step and sampled 3-step configuration histories over {absent, file, internal} (which exposed the missing deletion on a file-to-internal transition — fixed), all special float values in plain and rescaled units, and seeded random streams with API edits.",
    note="The deciding evidence for the write/read equality is bounded, not a proof; proved obligations concern the reader's line rules only.  Float text: %v shortest round-trip formatting and strconv are trusted.",
    technique="contract-based deductive verification of the reader side (own VC generator over go/ssa) + bounded write/read round trip for the writer",
    design="5/C01"),
@@ -110,7 +112,7 @@ for pid, c in sorted(claimed.items()):
         "evidence_file": f"/verif/evidence/{pid}.json",
         "replay_cmd_template": "./check --replay {path}",
         "engine": "gocv",
-        "level_claimed": {"category": "proof", "text": c["text"], "design_ref": c["design"]},
+        "level_claimed": {"category": c.get("category", "proof"), "text": c["text"], "design_ref": c["design"]},
         "level_note": c["note"],
         "technique": c["technique"],
     })
